@@ -9,7 +9,7 @@ from execnet.rsync import RSync
 
 MODE = sys.argv[1] if len(sys.argv) > 1 else "quick"
 SEED = int(sys.argv[2]) if len(sys.argv) > 2 else 1
-NAMES = ["a", "b c", "é", "x.txt", "sub", "deep", "Z", "ünï", "f1", "link"]
+NAMES = ["a", "b c", "é", "x.txt", "sub", "deep", "Z", "ünï", "f1", "link", "..data", "...", ".hidden"]
 
 
 class Rep(RSync):
@@ -39,7 +39,7 @@ def gen_tree(rnd, root, depth=0, outside=None):
         elif kind == "rellink":
             os.symlink(rnd.choice(["a", "x.txt", "../a", "sub/a", "nothere"]), p)
         elif kind == "abslink":
-            os.symlink(os.path.join(TOP_SRC[0], rnd.choice(["a", "sub", "sub/a", "x.txt"])), p)
+            os.symlink(os.path.join(TOP_SRC[0], rnd.choice(["a", "sub", "sub/a", "x.txt", "..data", "..data/a", "...", ".hidden"])), p)
         elif kind == "outlink":
             os.symlink(outside, p)
         else:
@@ -137,6 +137,13 @@ try:
         os.makedirs(work)
         open(outside, "w").write("o")
         gen_tree(rnd, src, outside=outside)
+        if r == 0:
+            # fixed entries every run has: an entry whose name starts with two dots, and an absolute link into it (inside the tree, not "outside")
+            os.makedirs(os.path.join(src, "..data"), exist_ok=True) if not os.path.lexists(os.path.join(src, "..data")) else None
+            if os.path.isdir(os.path.join(src, "..data")) and not os.path.islink(os.path.join(src, "..data")):
+                open(os.path.join(src, "..data", "cfg"), "w").write("c")
+                if not os.path.lexists(os.path.join(src, "current")):
+                    os.symlink(os.path.join(src, "..data", "cfg"), os.path.join(src, "current"))
         ntargets = rnd.randint(1, 3)
         delete = rnd.random() < 0.5
         dsts = []
